@@ -744,11 +744,18 @@ def check_types(
         """
 
         # Check for an '*args'-like argument
-        if len(arguments) > len(named_arguments):
+        star_args_name = next(
             (
-                star_args_name,
-                star_args_values,
-            ) = named_arguments.popitem()  # *args is the last item
+                param.name
+                for param in sig.parameters.values()
+                if param.kind is inspect.Parameter.VAR_POSITIONAL
+            ),
+            None,
+        )
+        if star_args_name in named_arguments:
+            # comparing the number of arguments does not detect a single
+            # value passed through *args
+            star_args_values = named_arguments.pop(star_args_name)
 
             star_args_tuple = (
                 _check_arg(star_args_name, arg_value)
